@@ -62,6 +62,14 @@ func TestWriteCorpus(t *testing.T) {
 	write("C01", "same-key-code-on-two-subhandlers", "regression: the note tracker was keyed by key code only; the first key's note was never released (fixed: c3974ad)", KeyCase{D: d, Steps: twin, NoLogs: true})
 	write("C02", "same-key-code-on-two-subhandlers", "regression: the release of one key sent the Note Off of the other sub-handler's key (fixed: c3974ad)", KeyCase{D: d, Steps: twin, NoLogs: true})
 
+	// C01: key-emulating axis let go while cc_learning is held
+	d = simple("off")
+	d.Actions = []ActionDef{{Code: 59, Action: "cc_learning"}}
+	d.Mappings[0].AnalogSubs = []AnalogSub{{Sub: "", Default: floatp(0)}}
+	d.Mappings[0].Axes = []AxisDef{{Code: 0x10, Type: "key", Note: intp(50), NoteNeg: intp(52), Min: -1, Max: 1}}
+	write("C01", "key-axis-released-while-learning", "regression: the learning filter dropped the return to centre of a key-emulating axis (fixed: 05e54a5)",
+		KeyCase{D: d, Steps: append([]Step{{T: "abs", Code: 0x10, Val: 1}, {T: "key", Code: 59, Val: 1}, {T: "abs", Code: 0x10, Val: 0}, {T: "key", Code: 59, Val: 0}}, tap(30)...), NoLogs: true})
+
 	// C05: default channel 0 + panic
 	d = simple("off")
 	d.Channel = 0
